@@ -4,8 +4,10 @@
 // Oracle per case: matched(pre-state, expected index) from the documented rule (0 = create-only,
 // otherwise equals the entity's current modify index / the table index), then the conditional command
 // runs on world X and its UNCONDITIONAL counterpart on a twin world Y (same pre-state, same index):
-//   matched      => reported success  AND dump(X') == dump(Y')
-//   not matched  => no reported success AND dump(X') == dump(X)   (all tables incl. index table)
+//
+//	matched      => reported success  AND dump(X') == dump(Y')
+//	not matched  => no reported success AND dump(X') == dump(X)   (all tables incl. index table)
+//
 // any third outcome (neither equal) is a partial application.
 package c10
 
@@ -91,7 +93,9 @@ func types() []ctype {
 			create: func(v int) cmd {
 				return cmd{structs.KVSRequestType, &structs.KVSRequest{Op: api.KVSet, DirEnt: structs.DirEntry{Key: "a/b", Value: []byte(fmt.Sprint("pre", v))}}}
 			},
-			remove: func() cmd { return cmd{structs.KVSRequestType, &structs.KVSRequest{Op: api.KVDelete, DirEnt: structs.DirEntry{Key: "a/b"}}} },
+			remove: func() cmd {
+				return cmd{structs.KVSRequestType, &structs.KVSRequest{Op: api.KVDelete, DirEnt: structs.DirEntry{Key: "a/b"}}}
+			},
 			current: func(s *state.Store) (uint64, bool) {
 				_, e, _ := s.KVSGet(nil, "a/b", nil)
 				if e == nil {
@@ -109,7 +113,9 @@ func types() []ctype {
 			create: func(v int) cmd {
 				return cmd{structs.KVSRequestType, &structs.KVSRequest{Op: api.KVSet, DirEnt: structs.DirEntry{Key: "a/b", Value: []byte(fmt.Sprint("pre", v))}}}
 			},
-			remove: func() cmd { return cmd{structs.KVSRequestType, &structs.KVSRequest{Op: api.KVDelete, DirEnt: structs.DirEntry{Key: "a/b"}}} },
+			remove: func() cmd {
+				return cmd{structs.KVSRequestType, &structs.KVSRequest{Op: api.KVDelete, DirEnt: structs.DirEntry{Key: "a/b"}}}
+			},
 			current: func(s *state.Store) (uint64, bool) {
 				_, e, _ := s.KVSGet(nil, "a/b", nil)
 				if e == nil {
@@ -120,12 +126,16 @@ func types() []ctype {
 			cond: func(x uint64, v int) cmd {
 				return cmd{structs.KVSRequestType, &structs.KVSRequest{Op: api.KVDeleteCAS, DirEnt: structs.DirEntry{Key: "a/b", RaftIndex: structs.RaftIndex{ModifyIndex: x}}}}
 			},
-			uncond: func(v int) cmd { return cmd{structs.KVSRequestType, &structs.KVSRequest{Op: api.KVDelete, DirEnt: structs.DirEntry{Key: "a/b"}}} }},
+			uncond: func(v int) cmd {
+				return cmd{structs.KVSRequestType, &structs.KVSRequest{Op: api.KVDelete, DirEnt: structs.DirEntry{Key: "a/b"}}}
+			}},
 		{name: "txn:kv-cas", zeroMeansCreate: true, reported: txnOK,
 			create: func(v int) cmd {
 				return cmd{structs.KVSRequestType, &structs.KVSRequest{Op: api.KVSet, DirEnt: structs.DirEntry{Key: "a/b", Value: []byte(fmt.Sprint("pre", v))}}}
 			},
-			remove: func() cmd { return cmd{structs.KVSRequestType, &structs.KVSRequest{Op: api.KVDelete, DirEnt: structs.DirEntry{Key: "a/b"}}} },
+			remove: func() cmd {
+				return cmd{structs.KVSRequestType, &structs.KVSRequest{Op: api.KVDelete, DirEnt: structs.DirEntry{Key: "a/b"}}}
+			},
 			current: func(s *state.Store) (uint64, bool) {
 				_, e, _ := s.KVSGet(nil, "a/b", nil)
 				if e == nil {
@@ -140,69 +150,264 @@ func types() []ctype {
 				return txn(&structs.TxnOp{KV: &structs.TxnKVOp{Verb: api.KVSet, DirEnt: structs.DirEntry{Key: "a/b", Value: []byte(fmt.Sprint("new", v))}}})
 			}},
 		{name: "txn:node-cas", zeroMeansCreate: true, reported: txnOK,
-			create:  func(v int) cmd { n := node(v+5, 0); return txn(&structs.TxnOp{Node: &structs.TxnNodeOp{Verb: api.NodeSet, Node: n}}) },
-			remove:  func() cmd { return txn(&structs.TxnOp{Node: &structs.TxnNodeOp{Verb: api.NodeDelete, Node: node(0, 0)}}) },
-			current: func(s *state.Store) (uint64, bool) { _, n, _ := s.GetNode("n1", nil, ""); if n == nil { return 0, false }; return n.ModifyIndex, true },
-			cond:    func(x uint64, v int) cmd { return txn(&structs.TxnOp{Node: &structs.TxnNodeOp{Verb: api.NodeCAS, Node: node(v, x)}}) },
-			uncond:  func(v int) cmd { return txn(&structs.TxnOp{Node: &structs.TxnNodeOp{Verb: api.NodeSet, Node: node(v, 0)}}) }},
+			create: func(v int) cmd {
+				n := node(v+5, 0)
+				return txn(&structs.TxnOp{Node: &structs.TxnNodeOp{Verb: api.NodeSet, Node: n}})
+			},
+			remove: func() cmd {
+				return txn(&structs.TxnOp{Node: &structs.TxnNodeOp{Verb: api.NodeDelete, Node: node(0, 0)}})
+			},
+			current: func(s *state.Store) (uint64, bool) {
+				_, n, _ := s.GetNode("n1", nil, "")
+				if n == nil {
+					return 0, false
+				}
+				return n.ModifyIndex, true
+			},
+			cond: func(x uint64, v int) cmd {
+				return txn(&structs.TxnOp{Node: &structs.TxnNodeOp{Verb: api.NodeCAS, Node: node(v, x)}})
+			},
+			uncond: func(v int) cmd {
+				return txn(&structs.TxnOp{Node: &structs.TxnNodeOp{Verb: api.NodeSet, Node: node(v, 0)}})
+			}},
 		{name: "txn:node-delete-cas", isDelete: true, reported: txnOK,
-			create:  func(v int) cmd { n := node(v+5, 0); return txn(&structs.TxnOp{Node: &structs.TxnNodeOp{Verb: api.NodeSet, Node: n}}) },
-			remove:  func() cmd { return txn(&structs.TxnOp{Node: &structs.TxnNodeOp{Verb: api.NodeDelete, Node: node(0, 0)}}) },
-			current: func(s *state.Store) (uint64, bool) { _, n, _ := s.GetNode("n1", nil, ""); if n == nil { return 0, false }; return n.ModifyIndex, true },
-			cond:    func(x uint64, v int) cmd { return txn(&structs.TxnOp{Node: &structs.TxnNodeOp{Verb: api.NodeDeleteCAS, Node: node(0, x)}}) },
-			uncond:  func(v int) cmd { return txn(&structs.TxnOp{Node: &structs.TxnNodeOp{Verb: api.NodeDelete, Node: node(0, 0)}}) }},
+			create: func(v int) cmd {
+				n := node(v+5, 0)
+				return txn(&structs.TxnOp{Node: &structs.TxnNodeOp{Verb: api.NodeSet, Node: n}})
+			},
+			remove: func() cmd {
+				return txn(&structs.TxnOp{Node: &structs.TxnNodeOp{Verb: api.NodeDelete, Node: node(0, 0)}})
+			},
+			current: func(s *state.Store) (uint64, bool) {
+				_, n, _ := s.GetNode("n1", nil, "")
+				if n == nil {
+					return 0, false
+				}
+				return n.ModifyIndex, true
+			},
+			cond: func(x uint64, v int) cmd {
+				return txn(&structs.TxnOp{Node: &structs.TxnNodeOp{Verb: api.NodeDeleteCAS, Node: node(0, x)}})
+			},
+			uncond: func(v int) cmd {
+				return txn(&structs.TxnOp{Node: &structs.TxnNodeOp{Verb: api.NodeDelete, Node: node(0, 0)}})
+			}},
 		{name: "txn:service-cas", zeroMeansCreate: true, reported: txnOK,
-			create:  func(v int) cmd { return txn(&structs.TxnOp{Service: &structs.TxnServiceOp{Verb: api.ServiceSet, Node: "n0", Service: svc(v+5, 0)}}) },
-			remove:  func() cmd { return txn(&structs.TxnOp{Service: &structs.TxnServiceOp{Verb: api.ServiceDelete, Node: "n0", Service: svc(0, 0)}}) },
-			current: func(s *state.Store) (uint64, bool) { _, e, _ := s.NodeService(nil, "n0", "web", nil, ""); if e == nil { return 0, false }; return e.ModifyIndex, true },
-			cond:    func(x uint64, v int) cmd { return txn(&structs.TxnOp{Service: &structs.TxnServiceOp{Verb: api.ServiceCAS, Node: "n0", Service: svc(v, x)}}) },
-			uncond:  func(v int) cmd { return txn(&structs.TxnOp{Service: &structs.TxnServiceOp{Verb: api.ServiceSet, Node: "n0", Service: svc(v, 0)}}) }},
+			create: func(v int) cmd {
+				return txn(&structs.TxnOp{Service: &structs.TxnServiceOp{Verb: api.ServiceSet, Node: "n0", Service: svc(v+5, 0)}})
+			},
+			remove: func() cmd {
+				return txn(&structs.TxnOp{Service: &structs.TxnServiceOp{Verb: api.ServiceDelete, Node: "n0", Service: svc(0, 0)}})
+			},
+			current: func(s *state.Store) (uint64, bool) {
+				_, e, _ := s.NodeService(nil, "n0", "web", nil, "")
+				if e == nil {
+					return 0, false
+				}
+				return e.ModifyIndex, true
+			},
+			cond: func(x uint64, v int) cmd {
+				return txn(&structs.TxnOp{Service: &structs.TxnServiceOp{Verb: api.ServiceCAS, Node: "n0", Service: svc(v, x)}})
+			},
+			uncond: func(v int) cmd {
+				return txn(&structs.TxnOp{Service: &structs.TxnServiceOp{Verb: api.ServiceSet, Node: "n0", Service: svc(v, 0)}})
+			}},
 		{name: "txn:service-delete-cas", isDelete: true, reported: txnOK,
-			create:  func(v int) cmd { return txn(&structs.TxnOp{Service: &structs.TxnServiceOp{Verb: api.ServiceSet, Node: "n0", Service: svc(v+5, 0)}}) },
-			remove:  func() cmd { return txn(&structs.TxnOp{Service: &structs.TxnServiceOp{Verb: api.ServiceDelete, Node: "n0", Service: svc(0, 0)}}) },
-			current: func(s *state.Store) (uint64, bool) { _, e, _ := s.NodeService(nil, "n0", "web", nil, ""); if e == nil { return 0, false }; return e.ModifyIndex, true },
-			cond:    func(x uint64, v int) cmd { return txn(&structs.TxnOp{Service: &structs.TxnServiceOp{Verb: api.ServiceDeleteCAS, Node: "n0", Service: svc(0, x)}}) },
-			uncond:  func(v int) cmd { return txn(&structs.TxnOp{Service: &structs.TxnServiceOp{Verb: api.ServiceDelete, Node: "n0", Service: svc(0, 0)}}) }},
+			create: func(v int) cmd {
+				return txn(&structs.TxnOp{Service: &structs.TxnServiceOp{Verb: api.ServiceSet, Node: "n0", Service: svc(v+5, 0)}})
+			},
+			remove: func() cmd {
+				return txn(&structs.TxnOp{Service: &structs.TxnServiceOp{Verb: api.ServiceDelete, Node: "n0", Service: svc(0, 0)}})
+			},
+			current: func(s *state.Store) (uint64, bool) {
+				_, e, _ := s.NodeService(nil, "n0", "web", nil, "")
+				if e == nil {
+					return 0, false
+				}
+				return e.ModifyIndex, true
+			},
+			cond: func(x uint64, v int) cmd {
+				return txn(&structs.TxnOp{Service: &structs.TxnServiceOp{Verb: api.ServiceDeleteCAS, Node: "n0", Service: svc(0, x)}})
+			},
+			uncond: func(v int) cmd {
+				return txn(&structs.TxnOp{Service: &structs.TxnServiceOp{Verb: api.ServiceDelete, Node: "n0", Service: svc(0, 0)}})
+			}},
 		{name: "txn:check-cas", zeroMeansCreate: true, reported: txnOK,
-			create:  func(v int) cmd { c := chk(v+5, 0); c.Node = "n0"; return txn(&structs.TxnOp{Check: &structs.TxnCheckOp{Verb: api.CheckSet, Check: c}}) },
-			remove:  func() cmd { c := chk(0, 0); c.Node = "n0"; return txn(&structs.TxnOp{Check: &structs.TxnCheckOp{Verb: api.CheckDelete, Check: c}}) },
-			current: func(s *state.Store) (uint64, bool) { _, e, _ := s.NodeCheck("n0", "c1", nil, ""); if e == nil { return 0, false }; return e.ModifyIndex, true },
-			cond:    func(x uint64, v int) cmd { c := chk(v, x); c.Node = "n0"; return txn(&structs.TxnOp{Check: &structs.TxnCheckOp{Verb: api.CheckCAS, Check: c}}) },
-			uncond:  func(v int) cmd { c := chk(v, 0); c.Node = "n0"; return txn(&structs.TxnOp{Check: &structs.TxnCheckOp{Verb: api.CheckSet, Check: c}}) }},
+			create: func(v int) cmd {
+				c := chk(v+5, 0)
+				c.Node = "n0"
+				return txn(&structs.TxnOp{Check: &structs.TxnCheckOp{Verb: api.CheckSet, Check: c}})
+			},
+			remove: func() cmd {
+				c := chk(0, 0)
+				c.Node = "n0"
+				return txn(&structs.TxnOp{Check: &structs.TxnCheckOp{Verb: api.CheckDelete, Check: c}})
+			},
+			current: func(s *state.Store) (uint64, bool) {
+				_, e, _ := s.NodeCheck("n0", "c1", nil, "")
+				if e == nil {
+					return 0, false
+				}
+				return e.ModifyIndex, true
+			},
+			cond: func(x uint64, v int) cmd {
+				c := chk(v, x)
+				c.Node = "n0"
+				return txn(&structs.TxnOp{Check: &structs.TxnCheckOp{Verb: api.CheckCAS, Check: c}})
+			},
+			uncond: func(v int) cmd {
+				c := chk(v, 0)
+				c.Node = "n0"
+				return txn(&structs.TxnOp{Check: &structs.TxnCheckOp{Verb: api.CheckSet, Check: c}})
+			}},
+		// the same conditional write with content the store refuses on its own (a check bound to a service
+		// instance that is not registered; a node whose ID belongs to another node): whatever the index,
+		// the operation must not report success
+		{name: "txn:check-cas:refused-content", zeroMeansCreate: true, reported: txnOK,
+			create: func(v int) cmd {
+				c := chk(v+5, 0)
+				c.Node = "n0"
+				return txn(&structs.TxnOp{Check: &structs.TxnCheckOp{Verb: api.CheckSet, Check: c}})
+			},
+			remove: func() cmd {
+				c := chk(0, 0)
+				c.Node = "n0"
+				return txn(&structs.TxnOp{Check: &structs.TxnCheckOp{Verb: api.CheckDelete, Check: c}})
+			},
+			current: func(s *state.Store) (uint64, bool) {
+				_, e, _ := s.NodeCheck("n0", "c1", nil, "")
+				if e == nil {
+					return 0, false
+				}
+				return e.ModifyIndex, true
+			},
+			cond: func(x uint64, v int) cmd {
+				c := chk(v, x)
+				c.Node = "n0"
+				c.ServiceID = "ghost-instance"
+				return txn(&structs.TxnOp{Check: &structs.TxnCheckOp{Verb: api.CheckCAS, Check: c}})
+			},
+			uncond: func(v int) cmd {
+				c := chk(v, 0)
+				c.Node = "n0"
+				c.ServiceID = "ghost-instance"
+				return txn(&structs.TxnOp{Check: &structs.TxnCheckOp{Verb: api.CheckSet, Check: c}})
+			}},
 		{name: "txn:check-delete-cas", isDelete: true, reported: txnOK,
-			create:  func(v int) cmd { c := chk(v+5, 0); c.Node = "n0"; return txn(&structs.TxnOp{Check: &structs.TxnCheckOp{Verb: api.CheckSet, Check: c}}) },
-			remove:  func() cmd { c := chk(0, 0); c.Node = "n0"; return txn(&structs.TxnOp{Check: &structs.TxnCheckOp{Verb: api.CheckDelete, Check: c}}) },
-			current: func(s *state.Store) (uint64, bool) { _, e, _ := s.NodeCheck("n0", "c1", nil, ""); if e == nil { return 0, false }; return e.ModifyIndex, true },
-			cond:    func(x uint64, v int) cmd { c := chk(0, x); c.Node = "n0"; return txn(&structs.TxnOp{Check: &structs.TxnCheckOp{Verb: api.CheckDeleteCAS, Check: c}}) },
-			uncond:  func(v int) cmd { c := chk(0, 0); c.Node = "n0"; return txn(&structs.TxnOp{Check: &structs.TxnCheckOp{Verb: api.CheckDelete, Check: c}}) }},
+			create: func(v int) cmd {
+				c := chk(v+5, 0)
+				c.Node = "n0"
+				return txn(&structs.TxnOp{Check: &structs.TxnCheckOp{Verb: api.CheckSet, Check: c}})
+			},
+			remove: func() cmd {
+				c := chk(0, 0)
+				c.Node = "n0"
+				return txn(&structs.TxnOp{Check: &structs.TxnCheckOp{Verb: api.CheckDelete, Check: c}})
+			},
+			current: func(s *state.Store) (uint64, bool) {
+				_, e, _ := s.NodeCheck("n0", "c1", nil, "")
+				if e == nil {
+					return 0, false
+				}
+				return e.ModifyIndex, true
+			},
+			cond: func(x uint64, v int) cmd {
+				c := chk(0, x)
+				c.Node = "n0"
+				return txn(&structs.TxnOp{Check: &structs.TxnCheckOp{Verb: api.CheckDeleteCAS, Check: c}})
+			},
+			uncond: func(v int) cmd {
+				c := chk(0, 0)
+				c.Node = "n0"
+				return txn(&structs.TxnOp{Check: &structs.TxnCheckOp{Verb: api.CheckDelete, Check: c}})
+			}},
 		{name: "config:upsert-cas", zeroMeansCreate: true, reported: boolTrue,
-			create:  func(v int) cmd { return cmd{structs.ConfigEntryRequestType, &structs.ConfigEntryRequest{Op: structs.ConfigEntryUpsert, Entry: entry(v+1, 0)}} },
-			remove:  func() cmd { return cmd{structs.ConfigEntryRequestType, &structs.ConfigEntryRequest{Op: structs.ConfigEntryDelete, Entry: entry(0, 0)}} },
-			current: func(s *state.Store) (uint64, bool) { _, e, _ := s.ConfigEntry(nil, structs.ServiceDefaults, "web", nil); if e == nil { return 0, false }; return e.GetRaftIndex().ModifyIndex, true },
-			cond:    func(x uint64, v int) cmd { return cmd{structs.ConfigEntryRequestType, &structs.ConfigEntryRequest{Op: structs.ConfigEntryUpsertCAS, Entry: entry(v, x)}} },
-			uncond:  func(v int) cmd { return cmd{structs.ConfigEntryRequestType, &structs.ConfigEntryRequest{Op: structs.ConfigEntryUpsert, Entry: entry(v, 0)}} }},
+			create: func(v int) cmd {
+				return cmd{structs.ConfigEntryRequestType, &structs.ConfigEntryRequest{Op: structs.ConfigEntryUpsert, Entry: entry(v+1, 0)}}
+			},
+			remove: func() cmd {
+				return cmd{structs.ConfigEntryRequestType, &structs.ConfigEntryRequest{Op: structs.ConfigEntryDelete, Entry: entry(0, 0)}}
+			},
+			current: func(s *state.Store) (uint64, bool) {
+				_, e, _ := s.ConfigEntry(nil, structs.ServiceDefaults, "web", nil)
+				if e == nil {
+					return 0, false
+				}
+				return e.GetRaftIndex().ModifyIndex, true
+			},
+			cond: func(x uint64, v int) cmd {
+				return cmd{structs.ConfigEntryRequestType, &structs.ConfigEntryRequest{Op: structs.ConfigEntryUpsertCAS, Entry: entry(v, x)}}
+			},
+			uncond: func(v int) cmd {
+				return cmd{structs.ConfigEntryRequestType, &structs.ConfigEntryRequest{Op: structs.ConfigEntryUpsert, Entry: entry(v, 0)}}
+			}},
 		{name: "config:upsert-with-status-cas", zeroMeansCreate: true, reported: boolTrue,
-			create:  func(v int) cmd { return cmd{structs.ConfigEntryRequestType, &structs.ConfigEntryRequest{Op: structs.ConfigEntryUpsert, Entry: entry(v+1, 0)}} },
-			remove:  func() cmd { return cmd{structs.ConfigEntryRequestType, &structs.ConfigEntryRequest{Op: structs.ConfigEntryDelete, Entry: entry(0, 0)}} },
-			current: func(s *state.Store) (uint64, bool) { _, e, _ := s.ConfigEntry(nil, structs.ServiceDefaults, "web", nil); if e == nil { return 0, false }; return e.GetRaftIndex().ModifyIndex, true },
-			cond:    func(x uint64, v int) cmd { return cmd{structs.ConfigEntryRequestType, &structs.ConfigEntryRequest{Op: structs.ConfigEntryUpsertWithStatusCAS, Entry: entry(v, x)}} },
-			uncond:  func(v int) cmd { return cmd{structs.ConfigEntryRequestType, &structs.ConfigEntryRequest{Op: structs.ConfigEntryUpsert, Entry: entry(v, 0)}} }},
+			create: func(v int) cmd {
+				return cmd{structs.ConfigEntryRequestType, &structs.ConfigEntryRequest{Op: structs.ConfigEntryUpsert, Entry: entry(v+1, 0)}}
+			},
+			remove: func() cmd {
+				return cmd{structs.ConfigEntryRequestType, &structs.ConfigEntryRequest{Op: structs.ConfigEntryDelete, Entry: entry(0, 0)}}
+			},
+			current: func(s *state.Store) (uint64, bool) {
+				_, e, _ := s.ConfigEntry(nil, structs.ServiceDefaults, "web", nil)
+				if e == nil {
+					return 0, false
+				}
+				return e.GetRaftIndex().ModifyIndex, true
+			},
+			cond: func(x uint64, v int) cmd {
+				return cmd{structs.ConfigEntryRequestType, &structs.ConfigEntryRequest{Op: structs.ConfigEntryUpsertWithStatusCAS, Entry: entry(v, x)}}
+			},
+			uncond: func(v int) cmd {
+				return cmd{structs.ConfigEntryRequestType, &structs.ConfigEntryRequest{Op: structs.ConfigEntryUpsert, Entry: entry(v, 0)}}
+			}},
 		{name: "config:delete-cas", isDelete: true, reported: boolTrue,
-			create:  func(v int) cmd { return cmd{structs.ConfigEntryRequestType, &structs.ConfigEntryRequest{Op: structs.ConfigEntryUpsert, Entry: entry(v+1, 0)}} },
-			remove:  func() cmd { return cmd{structs.ConfigEntryRequestType, &structs.ConfigEntryRequest{Op: structs.ConfigEntryDelete, Entry: entry(0, 0)}} },
-			current: func(s *state.Store) (uint64, bool) { _, e, _ := s.ConfigEntry(nil, structs.ServiceDefaults, "web", nil); if e == nil { return 0, false }; return e.GetRaftIndex().ModifyIndex, true },
-			cond:    func(x uint64, v int) cmd { return cmd{structs.ConfigEntryRequestType, &structs.ConfigEntryRequest{Op: structs.ConfigEntryDeleteCAS, Entry: entry(0, x)}} },
-			uncond:  func(v int) cmd { return cmd{structs.ConfigEntryRequestType, &structs.ConfigEntryRequest{Op: structs.ConfigEntryDelete, Entry: entry(0, 0)}} }},
+			create: func(v int) cmd {
+				return cmd{structs.ConfigEntryRequestType, &structs.ConfigEntryRequest{Op: structs.ConfigEntryUpsert, Entry: entry(v+1, 0)}}
+			},
+			remove: func() cmd {
+				return cmd{structs.ConfigEntryRequestType, &structs.ConfigEntryRequest{Op: structs.ConfigEntryDelete, Entry: entry(0, 0)}}
+			},
+			current: func(s *state.Store) (uint64, bool) {
+				_, e, _ := s.ConfigEntry(nil, structs.ServiceDefaults, "web", nil)
+				if e == nil {
+					return 0, false
+				}
+				return e.GetRaftIndex().ModifyIndex, true
+			},
+			cond: func(x uint64, v int) cmd {
+				return cmd{structs.ConfigEntryRequestType, &structs.ConfigEntryRequest{Op: structs.ConfigEntryDeleteCAS, Entry: entry(0, x)}}
+			},
+			uncond: func(v int) cmd {
+				return cmd{structs.ConfigEntryRequestType, &structs.ConfigEntryRequest{Op: structs.ConfigEntryDelete, Entry: entry(0, 0)}}
+			}},
 		{name: "ca:set-config-cas", reported: boolTrue,
-			create:  func(v int) cmd { return cmd{structs.ConnectCARequestType, &structs.CARequest{Op: structs.CAOpSetConfig, Config: caCfg(v+5, 0)}} },
-			current: func(s *state.Store) (uint64, bool) { _, c, _ := s.CAConfig(nil); if c == nil { return 0, false }; return c.ModifyIndex, true },
-			cond:    func(x uint64, v int) cmd { return cmd{structs.ConnectCARequestType, &structs.CARequest{Op: structs.CAOpSetConfig, Config: caCfg(v, x)}} },
-			uncond:  func(v int) cmd { return cmd{structs.ConnectCARequestType, &structs.CARequest{Op: structs.CAOpSetConfig, Config: caCfg(v, 0)}} }},
+			create: func(v int) cmd {
+				return cmd{structs.ConnectCARequestType, &structs.CARequest{Op: structs.CAOpSetConfig, Config: caCfg(v+5, 0)}}
+			},
+			current: func(s *state.Store) (uint64, bool) {
+				_, c, _ := s.CAConfig(nil)
+				if c == nil {
+					return 0, false
+				}
+				return c.ModifyIndex, true
+			},
+			cond: func(x uint64, v int) cmd {
+				return cmd{structs.ConnectCARequestType, &structs.CARequest{Op: structs.CAOpSetConfig, Config: caCfg(v, x)}}
+			},
+			uncond: func(v int) cmd {
+				return cmd{structs.ConnectCARequestType, &structs.CARequest{Op: structs.CAOpSetConfig, Config: caCfg(v, 0)}}
+			}},
 		{name: "autopilot:cas", reported: boolTrue,
 			create: func(v int) cmd {
 				return cmd{structs.AutopilotRequestType, &structs.AutopilotSetConfigRequest{Config: structs.AutopilotConfig{MaxTrailingLogs: uint64(50 + v), CleanupDeadServers: true}}}
 			},
-			current: func(s *state.Store) (uint64, bool) { _, c, _ := s.AutopilotConfig(); if c == nil { return 0, false }; return c.ModifyIndex, true },
+			current: func(s *state.Store) (uint64, bool) {
+				_, c, _ := s.AutopilotConfig()
+				if c == nil {
+					return 0, false
+				}
+				return c.ModifyIndex, true
+			},
 			cond: func(x uint64, v int) cmd {
 				return cmd{structs.AutopilotRequestType, &structs.AutopilotSetConfigRequest{CAS: true, Config: structs.AutopilotConfig{MaxTrailingLogs: uint64(100 + v), ModifyIndex: x}}}
 			},
@@ -213,7 +418,9 @@ func types() []ctype {
 			create: func(v int) cmd {
 				return cmd{structs.ACLTokenSetRequestType, &structs.ACLTokenBatchSetRequest{Tokens: structs.ACLTokens{tok(v+5, 0)}}}
 			},
-			remove: func() cmd { return cmd{structs.ACLTokenDeleteRequestType, &structs.ACLTokenBatchDeleteRequest{TokenIDs: []string{"aaaaaaaa-0000-0000-0000-000000000001"}}} },
+			remove: func() cmd {
+				return cmd{structs.ACLTokenDeleteRequestType, &structs.ACLTokenBatchDeleteRequest{TokenIDs: []string{"aaaaaaaa-0000-0000-0000-000000000001"}}}
+			},
 			current: func(s *state.Store) (uint64, bool) {
 				_, e, _ := s.ACLTokenGetByAccessor(nil, "aaaaaaaa-0000-0000-0000-000000000001", nil)
 				if e == nil {
@@ -352,7 +559,20 @@ func TestZZVerifC10(t *testing.T) {
 
 				// the UNconditional write is itself refused (e.g. config-entry graph validation against the
 				// random pre-history): the command is rejected for a reason other than its condition
+				uRefused := false
 				if _, uerr := ures.(error); uerr {
+					uRefused = true
+				} else if tr, ok := ures.(structs.TxnResponse); ok && len(tr.Errors) > 0 {
+					uRefused = true
+				}
+				if uRefused && ct.reported(res) {
+					if _, cerr := res.(error); !cerr {
+						run.Violation("C10:"+ct.name+":reported-although-the-write-itself-is-refused", fmt.Sprintf("%s on %s entity with %s index %d reports success (%s) although the same write without a condition is refused (%s): nothing was applied", ct.name, psName, su.name, su.v, trunc(fsmkit.RenderResult(res, dump.Render), 160), trunc(fsmkit.RenderResult(ures, dump.Render), 160)),
+							map[string]any{"type": ct.name, "pre_state": psName, "supplied": su.name, "supplied_index": su.v, "current_index": cur})
+						continue
+					}
+				}
+				if uRefused {
 					if _, cerr := res.(error); cerr || !ct.reported(res) {
 						run.Count("rejected-for-other-reason")
 						if len(dump.Compare(before, after, 1, nil)) != 0 {
